@@ -289,6 +289,7 @@ STALL_ARGS = (6, 500, 3)   # healthy subscribers, write deadline of Send in ms (
 
 
 RETIRE_ARGS = (300, 8)     # write deadline of Send in ms (hook H5), rounds
+DLRESET_ARGS = (300, 6)    # write deadline of Send in ms (hook H5), rounds
 
 
 def run_stall_once(d, args, tag, sub="stall"):
@@ -378,7 +379,7 @@ def lock_obligation(d):
     if rc != 0 or not out.exists():
         return None, "lockcheck failed: " + log[-1500:]
     facts = json.loads(out.read_text())
-    bad = [a for k in ("accesses", "writes", "table_mutations") for a in facts.get(k) or [] if not a["guarded"]]
+    bad = [a for k in ("accesses", "writes", "table_mutations", "foreign_deadlines", "conn_write_locks") for a in facts.get(k) or [] if not a["guarded"]]
     if not facts["all_guarded"] and not bad:
         bad = [dict(what="shape", why="Send/Subscribe/UnSubscribe or their table accesses not found: the code no longer has the shape the model describes")]
     return facts, bad
@@ -392,7 +393,7 @@ def replay(ctx, d):
         for f in findings[:5]:
             print("  ", f)
         return 1 if findings else 0
-    if r.get("kind") in ("stall", "retire"):
+    if r.get("kind") in ("stall", "retire", "dlreset"):
         st, info = run_stall(d, tuple(r["args"]), sub=r["kind"])
         print("%s scenario %s =" % (r["kind"], "(healthy subscribers, deadline ms, rounds)" if r["kind"] == "stall" else "(deadline ms, rounds)"), r["args"], "->", st)
         if st != "OK":
@@ -442,12 +443,13 @@ def run(ctx):
         return replay(ctx, d)
 
     rc = 0
-    nobl = 3
+    nobl = 5
     facts, bad = (None, None)
     seq_stats = dict(cases=0, ops=0, replies=0, pushes=0, nontrivial=0)
     conc_stats = []
     stall_info = {}
     retire_info = {}
+    dlreset_info = {}
     samples = []
     if built:
         # ---- (T) lock obligation
@@ -521,6 +523,19 @@ def run(ctx):
                                         note="connection 1 is the only subscriber and never reads; connection 3's first PUBLISH blocks in Send until the write deadline (%d ms, hook H5) and drops it; connection 2's SUBSCRIBE is sent during that window (a different fraction of the deadline each round). The program lists the two overlapping commands in the order shown by the first PUBLISH reply (both orders are legal). Afterwards PUBLISH hello must reach connection 2 and reply 1: a connection that has its confirmation but is not reached is a lost subscription." % rargs[0]))
                 ctx.violations += 1
                 rc = 1
+        # ---- nobody takes Send's write deadline away (the subscriber's own handler, another Send)
+        if rc == 0:
+            dargs = DLRESET_ARGS if not thorough else (400, 24)
+            st, dlreset_info = run_stall(d, dargs, sub="dlreset")
+            dlreset_info["args"] = list(dargs)
+            if st != "OK":
+                lib.violation(PID, dict(kind="dlreset", theorem="'never block publishers indefinitely': in the model a write either succeeds or fails (C19_publish_prunes_closed: the subscriber that does not take the message is pruned, the PUBLISH replies); the code must turn a blocked write into a failed one after the write deadline",
+                                        args=list(dargs), program=dlreset_info.get("program"),
+                                        readable=describe_ops(["CASE s"] + dlreset_info.get("program", []) + ["END"]),
+                                        verdict=dlreset_info.get("verdict"), detail=dlreset_info.get("detail"), **extra,
+                                        note="write deadline of Send = %d ms (hook H5). Even rounds: connection 1 (net.Pipe) sends SUBSCRIBE and reads its confirmation only after connection 3's PUBLISH has started writing to it, then never reads again. Odd rounds: connection 1 is subscribed to two channels, PUBLISH Y is writing to it, PUBLISH X queues behind, connection 1 reads the first message only. Every PUBLISH must reply within the deadline + 6 s, a later SUBSCRIBE and PUBLISH must get through. An ERR verdict names the command that never came back." % dargs[0]))
+                ctx.violations += 1
+                rc = 1
         # ---- (V) concurrent runs
         if rc == 0:
             runs = [(ctx.seed, 4, 5, 1500, 3, 1, 60), (ctx.seed + 1, 6, 6, 1200, 2, 0, 60), (ctx.seed + 2, 3, 8, 2500, 1, 1, 60)]
@@ -566,12 +581,14 @@ def run(ctx):
                              accesses=len(facts["accesses"]) if facts else 0,
                              writes_with_deadline=len(facts["writes"]) if facts else 0,
                              table_mutations=len(facts["table_mutations"]) if facts else 0,
+                             foreign_deadline_calls=len(facts.get("foreign_deadlines") or []) if facts else 0,
+                             conn_write_locks=len(facts.get("conn_write_locks") or []) if facts else 0,
                              functions=facts["functions"] if facts else [],
-                             parts=["(A) conns/numSubs only under the channel lock", "(B) each of Send's writes has its own deadline computed from time.Now()", "(C) channel table mutated under the table lock"]),
+                             parts=["(A) conns/numSubs only under the channel lock", "(B) each of Send's writes has its own deadline computed from time.Now()", "(C) channel table mutated under the table lock", "(D) no SetWriteDeadline/SetDeadline on client connections outside ChanMap.Send (memdb, server, resp)", "(E) deadline + write + clear under the per-connection write lock"]),
         evaluations=seq_stats["ops"] + sum(s["publishes"] for s in conc_stats),
         distinct_nontrivial=seq_stats["nontrivial"],
         rule="sequential: 10 fixed programs (repeated SUBSCRIBE, client gone, dead connection, framing, retire/re-create a channel…) + seeded random programs of 3-28 operations (SUBSCRIBE of 1-3 channels, PUBLISH, API-level UnSubscribe, client close, server-side kill) over 2-5 connections and 1-3 channels with names/payloads containing CR LF NUL 0xff, RESP look-alikes, empty and long (to 70 kB) byte strings; a program counts as non-trivial when it subscribes, publishes and at least one message push was delivered and compared; evaluations = operations executed sequentially + PUBLISH commands of the concurrent runs",
-        sequential=seq_stats, stalled_subscriber=stall_info, subscribe_during_pruning_publish=retire_info, concurrent=conc_stats, samples=samples or ["(none)"],
+        sequential=seq_stats, stalled_subscriber=stall_info, subscribe_during_pruning_publish=retire_info, write_deadline_not_taken_away=dlreset_info, concurrent=conc_stats, samples=samples or ["(none)"],
         correspondence="bytes received on every connection (real TCP, server.Manager.Handle from the working tree) decoded by extracted decode_stream and compared by extracted observed_match with outq of the extracted model",
     ))
     lib.write_evidence(PID, ctx.tier, ctx.seed, cov,
